@@ -94,7 +94,9 @@ class PolyNet(REINFORCE):
             checkpoint = torch.load(base_model_checkpoint_path)
             state_dict = checkpoint["state_dict"]
             state_dict = {k.replace("policy.", "", 1): v for k, v in state_dict.items()}
-            policy.load_state_dict(state_dict, strict=False)
+            # assign (do not copy in place): when the model is rebuilt from its own checkpoint the policy's tensors
+            # share storage with the checkpoint's state dict, which an in-place copy of the base weights would overwrite
+            policy.load_state_dict(state_dict, strict=False, assign=True)
 
         train_batch_size = kwargs["batch_size"] if "batch_size" in kwargs else 64
         kwargs_with_defaults = {
